@@ -269,6 +269,7 @@ pub open spec fn pin_geoms(ports: Seq<lef21::LefPort>) -> Seq<lef21::LefLayerGeo
 //@ item layout21raw/src/data.rs :: struct Abstract
 //@ end
 impl AbstractPort {
+    //@ pin layout21raw/src/data.rs :: impl AbstractPort :: fn new @5f14b977
     /// model of AbstractPort::new(impl Into<String>): the name, no shapes
     #[verifier::external_body]
     pub fn new(net: &String) -> (r: Self) ensures r.net@ == net@, r.shapes@ == Map::<LayerKey, Vec<Shape>>::empty() { unimplemented!() }
@@ -373,7 +374,7 @@ impl LefImporter {
 //@ end
 }
 impl LefImporter {
-    /// model of LefImporter::import_layer (locks the shared layer table, looks the name up, creates the layer if absent): the name's key
+    /// LefImporter::import_layer: ASSUMED copy of the contract proved for the real function in unit lef_layer (the name's key; this unit's importer has no layer table)
     #[verifier::external_body]
     fn import_layer(&mut self, leflayer: &String) -> (r: LayoutResult<LayerKey>)
         ensures final(self).dist_scale == old(self).dist_scale, final(self).lib == old(self).lib, final(self).ctx == old(self).ctx, r is Ok ==> r->Ok_0 == key_of(leflayer@),
@@ -508,6 +509,7 @@ pub open spec fn abs_is(a: Abstract, lefmacro: lef21::LefMacro, scale: int) -> b
 }
 /// C16 "one abstract cell per macro": the cell named after the macro whose only view is the macro's abstract
 pub open spec fn cell_is(c: Cell, lefmacro: lef21::LefMacro, scale: int) -> bool { c.name@ == lefmacro.name@ && c.abs is Some && abs_is(c.abs->0, lefmacro, scale) }
+//@ pin layout21raw/src/data.rs :: impl From<Abstract> for Cell :: fn from @c4c07b3d
 /// model of `impl From<Abstract> for Cell` (data.rs): named after the abstract, only the abstract view
 impl vstd::std_specs::convert::FromSpecImpl<Abstract> for Cell {
     open spec fn obeys_from_spec() -> bool { true }
@@ -517,6 +519,8 @@ impl From<Abstract> for Cell {
     #[verifier::external_body]
     fn from(src: Abstract) -> (r: Cell) ensures r.name@ == src.name@, r.abs == Some(src) { unimplemented!() }
 }
+//@ pin layout21utils/src/ptr.rs :: impl<T> PtrList<T> :: fn insert @cadd958f
+//@ pin layout21utils/src/ptr.rs :: impl<T> PtrList<T> :: fn add @305d31d1
 /// model of PtrList::insert (wrap in a handle, append): here the list of the cells themselves
 #[verifier::external_body]
 pub fn vp_cells_insert(cells: &mut Vec<Cell>, c: Cell) ensures final(cells)@ == old(cells)@.push(c) { cells.push(c) }
